@@ -281,8 +281,8 @@ def identical(a, b, st: St):
 def alloc(st: St, prefix: str, ty):
     """Allocate a fresh reference, distinct from everything allocated before."""
     r = smt.fresh_v(prefix)
-    smt.tick(r.decl().name())
-    st.assume(z3.Not(smt.Alloc0(r)), r != smt.NONE, smt.SkFam(r) == 0)
+    ev = smt.tick(r.decl().name())
+    st.assume(z3.Not(smt.Alloc0(r)), r != smt.NONE, smt.SkFam(r) == 0, smt.Birth(r) == ev)
     for o in st.fresh:
         st.assume(r != o)
     st.fresh.append(r)
